@@ -274,6 +274,11 @@ func (c *c07Case) Exec() {
 		}
 		test(i)
 	}
+	if replayExplainsFinal(img, root) != "" {
+		// the traced events do not reproduce the directory the child left: the trace was not understood, nothing
+		// follows from its images
+		c.Images, c.Unsynced = nil, nil
+	}
 }
 
 func (c *c07Case) appended() ([][]byte, []bool) {
